@@ -486,4 +486,59 @@ _upd('C07', text_add='Added (contracts/remap.py): Scope.resolve and the renaming
                      'referenced local symbol gets a generated name outside the reserved set, names pairwise different, every other entry untouched '
                      '(quantified loop invariants, z3).')
 
+# ---- texts rewritten where the first-round wording had been overtaken (the _upd additions above say what was added; these say what holds now)
+_upd('C07', engine='E1 pyvc + frame + E4 + E3 side obligations', technique=(
+    'deductive contracts (E1, z3) on the whole renaming machinery of handlers/obfuscation.py: symbol tables over arbitrary sets / dicts (z3 arrays), '
+    'reserved set, scope construction, every Obfuscator marker handler, name generator, and the renaming loop / resolve in state form with quantified '
+    'invariants; capture freedom of whole programs (the composition of these contracts along a walk) by a bounded executable post-condition with an '
+    "independent ES5 scope resolver; exhaustive side obligations on the definitions' scope-marker order and the name alphabet"),
+     text=('Under contract for arbitrary symbol tables (no bound on the number of symbols; parent and children are doubles with arbitrary sets = induction '
+           'hypothesis over the scope tree): declare, reference, close (every leaked symbol is referenced in the parent with its count; the loop runs over '
+           'exactly the leaked table), declared / global / non-local / leaked symbols, global symbols of the children, _reserved_symbols (contains every free '
+           'name used here or below and the resolved name of every outer symbol used here), CatchScope variants, construction and nesting; resolve = first '
+           'table on the chain that has the symbol; build_remap_symbols gives every referenced local symbol a name of the generator built for the reserved '
+           'set, names pairwise different, every other entry untouched, and recurses into every child; every Obfuscator marker handler acts once on exactly '
+           'the current scope, walk() installs exactly the handler table, prewalk_hook = walk then finalize, finalize closes before it renames; '
+           'NameGenerator yields only non-empty names outside its skip set, derived generators skip the union. Decided exhaustively: Declare / Push / Pop '
+           'marker order of every definition against ES5 scoping (closed world), ID_CHARS within IdentifierStart and repetition free, all reserved words '
+           'passed to the generator, the obfuscation rule set plugs in only the resolver. NOT proved, hence "other": the composition of these contracts '
+           'into capture freedom of a whole program (paper argument in DESIGN 9.10) -- bounded stand-in: 35 scoping programs (closures, hoisting, '
+           'parameters, function names, nested catch, labels, accessors, scopes with up to 300 / 3000 names) x 12 printer configurations, reused printer '
+           'objects, the binding partition of an independent resolver identical before and after; pairwise distinctness of generated names rests on the '
+           'model of itertools.product (+ bounded prefix); CatchScope.declare has no contract (finding F15).'))
+_upd('C09', text=('Proved for all inputs: Names.update keeps the name->index map injective onto [0,size), returns the index relative to the previous one and '
+                  'leaves the current index in range; Bookkeeper set/get/del implement the (previous,current) pairs whose difference is the relative value V3 '
+                  'wants. sourcemap.write with normalisation off (both loops cut; fragments and line pieces are abstract sequences): every explicitly '
+                  'positioned piece is mapped at the generated column where it is written to its own file, line, column and name; unpositioned pieces end '
+                  'the mapping. normalize_mapping_line (lines of any length): a consumer interpolating linearly from the last emitted segment sees the same '
+                  'source file, line and column for every input segment; named segments are emitted themselves; the carry equals what the decoder is behind. '
+                  'normalize_mappings threads that carry through the lines (first: the given column, 0 by default), one entry per line. '
+                  'verify_write_sourcemap_args / write_sourcemap: `file` and every `sources` entry are made relative to the map, the URL relative to the '
+                  'output; encode_sourcemap builds exactly the V3 document. The VLQ layer is proved under C10 and imported. NOT proved, hence "other": the '
+                  'composition write -> normalise -> encode -> decode, inferred positions of unpositioned pieces, str.splitlines / rstrip (over-approximated): '
+                  'bounded stand-in decoding the produced map with an independent decoder for exhaustive short synthetic streams, real printer streams and a '
+                  'multi-call scenario sharing book / sources / names.'))
+_upd('C10', text=('Every function of vlq.py is verified against the Source Map V3 rule for all integers / all lists / all alphabet strings: loop invariants, '
+                  'index and key safety, termination variant, and the round-trip statements P1, P2, P4 as compositions over the contracts, with 9 induction '
+                  'lemmas; the whole-mappings round trip P3 (decode_mappings(encode_mappings(m)) == m) for every shape of <= 2 lines x <= 2 segments of '
+                  'symbolic integer lists through a stated model of str.join / str.split whose side conditions are obligations, other shapes by the bounded '
+                  'stand-in. Proof level because the obligations are unbounded and all discharged by an SMT solver. Also: purity obligations on vlq.py (no '
+                  'store outside call-local values, no module-level mutable state) and a bounded call-edit-call history.'))
+_upd('C16', text=('For every production, every node the real action builds returns each node-valued attribute exactly once from children()/__iter__ and '
+                  'nothing else (O-children), and no child is stored twice (O-linear), so by induction the parser builds a tree whose pre-order over children() '
+                  'has no duplicates and misses no stored node. The walker functions are under contract over an uninterpreted node sort (loop invariants; the '
+                  'recursive calls by contract = partial correctness, termination from finiteness of trees): Walker.walk yields pre(n) = flat(kids(n)), also '
+                  'when a condition is given; filter yields filt(pre(n)); extract returns filt(pre(n))[skip] and raises TypeError exactly when there are not '
+                  'that many matches; Node.__iter__ = the non-None entries of children() (lists of <= 3). "other" because of known finding F17 (Comments nodes '
+                  'are stored in an attribute no children() returns) and the bounded parts (longer child lists, whole parsed trees against an independent '
+                  'attribute closure; an exception from the walkers on a parsed tree is a violation).'))
+_upd('C19', text=('The extractor is a rule table interpreted by the generic walker, so there are no SMT contracts; the deciding part is E2 (the real rule table '
+                  'applied, per node kind, to value stubs): O-extract -- arrays, objects (key spellings incl. reserved words and object vocabulary, repeated '
+                  'keys: the later one wins), var / assignment bindings and programs combine the values of their parts exactly as JSON does, for children that '
+                  'are opaque or the falsy / empty / non-empty value of each JSON class (structural induction over the literal); the leaves by exhaustive '
+                  'token-level tables (every \\uXXXX escape, every raw character, every two-character escape followed by every printable ASCII character, '
+                  'number shapes), all with fold_ops off and on. Bounded stand-in, labelled so: JSON values of every scalar class and small nesting shape plus '
+                  'random deeper ones, bound by var, by assignment, inside a function and among other statements, must extract to exactly '
+                  '{name: json.loads(text)}. Known findings F18a / F18b (two string-literal cases).'))
+
 NOT_APPLICABLE = {}
